@@ -72,6 +72,12 @@ def make_lifetime(dist, dims, base, shapes, extra, inflow_at="middle", n_pts=1, 
     if via == "ctor":
         return cls(dims=dims, inflow_at=inflow_at, n_pts_per_interval=n_pts, **prms)
     lm = cls(dims=dims, inflow_at=inflow_at, n_pts_per_interval=n_pts)
+    if via == "reparam":
+        # the model has a past: other parameters were set and both tables were read before
+        other = {nm: (v + 0.75 if not hasattr(v, "values") else v + 0.75) for nm, v in prms.items()}
+        lm.set_prms(**other)
+        _ = lm.sf
+        _ = lm.pdf
     lm.set_prms(**prms)
     return lm
 
@@ -119,6 +125,10 @@ def driver_series(name, n, extra):
     """named deterministic driver: dict (t, label) -> float"""
     labs = labels(extra)
     out = {}
+    factor = 1.0
+    if "@" in name:  # exact power-of-two rescaling: magnitudes far from 1
+        name, mag = name.split("@")
+        factor = {"tiny": 2.0 ** -40, "huge": 2.0 ** 30}[mag]
     parts = name.split(":")
     for t in range(n):
         for li, lab in enumerate(labs):
@@ -142,11 +152,11 @@ def driver_series(name, n, extra):
                 v = 0.0 if t == 1 else 4.0 + t + li
             else:
                 raise ValueError(name)
-            out[(t, lab)] = v
+            out[(t, lab)] = v * factor
     return out
 
 
-def run_stock(kind, grid, lt, quad, extra, shapes, driver, via="ctor", int_dtype=False, pass_arrays=False):
+def run_stock(kind, grid, lt, quad, extra, shapes, driver, via="ctor", int_dtype=False, pass_arrays=False, recompute=False):
     """Build and compute one dynamic stock model.  `driver`: dict (t,label)->value (inflow for
     'inflow', prescribed stock for 'stock-*').  Returns dict of observed tables + the object."""
     import flodym
@@ -173,6 +183,17 @@ def run_stock(kind, grid, lt, quad, extra, shapes, driver, via="ctor", int_dtype
     else:
         s = cls(dims=dims, lifetime_model=lm, **kw)
         getattr(s, which).values[...] = dv
+    if recompute:
+        # the stock has a past: it was computed with other parameters and another driver before
+        prms_now = {nm: getattr(lm, nm).copy() for nm in base}
+        lm.set_prms(**{nm: v + 0.75 for nm, v in prms_now.items()})
+        getattr(s, which).values[...] = dv * 0.5 + 1.0
+        try:
+            s.compute()
+        except Exception:
+            pass
+        lm.set_prms(**prms_now)
+        getattr(s, which).values[...] = dv
     s.compute()
     out = dict(
         obj=s,
@@ -188,10 +209,10 @@ def run_stock(kind, grid, lt, quad, extra, shapes, driver, via="ctor", int_dtype
 
 def scale_of(res, grid):
     dt = dsm.dts(grid)
-    m = 1.0
+    m = 0.0
     for k in ("stock", "inflow", "outflow"):
         for (t, lab), v in res[k].items():
             f = abs(v) * (dt[t] if k != "stock" else 1.0)
             if f > m and f == f:
                 m = f
-    return m
+    return m if m > 0 else 1.0
